@@ -114,10 +114,18 @@ def run(ctx) -> list[Inst]:
                          f"association is handled differently from the other"),
                     file=rel, line=n.lineno, props=props))
             # (b) inference through else
-            if n.orelse:
-                used = sides(' '.join(stmt_text(s, 400) for s in n.orelse))
+            # the branch taken when the membership test FAILED: `else` of a positive test, the body of a negated one
+            t_ = n.test
+            negated = (isinstance(t_, ast.Compare) and len(t_.ops) == 1 and isinstance(t_.ops[0], ast.NotIn)) or \
+                      (isinstance(t_, ast.UnaryOp) and isinstance(t_.op, ast.Not))
+            failed_branch = n.body if negated else n.orelse
+            if negated and all(isinstance(x, (ast.Pass, ast.Continue)) for x in failed_branch):
+                failed_branch = []
+            if failed_branch:
+                n_orelse = failed_branch
+                used = sides(' '.join(stmt_text(s, 400) for s in n_orelse))
                 tested = sides(txt)
-                els_is_test = len(n.orelse) == 1 and isinstance(n.orelse[0], ast.If) and sides(stmt_text(n.orelse[0].test, 400))
+                els_is_test = len(n_orelse) == 1 and isinstance(n_orelse[0], ast.If) and sides(stmt_text(n_orelse[0].test, 400))
                 if used and not els_is_test and len(tested) == 1 and (used - tested or used):
                     insts.append(Inst(
                         RULE, fname, f'(b) orientation is tested, not inferred: else of {txt[:70]}', 'violation',
@@ -125,11 +133,11 @@ def run(ctx) -> list[Inst]:
                              f"{sorted(tested)}-side test failed: for an asset on both sides of a self-association "
                              f"one direction is returned twice and the other never; for an asset on neither side a "
                              f"wrong side is used"),
-                        file=rel, line=n.orelse[0].lineno, props=props))
+                        file=rel, line=n_orelse[0].lineno, props=props))
                 elif used and not els_is_test:
                     insts.append(Inst(RULE, fname, f'(b) orientation is tested, not inferred: else of {txt[:70]}',
                                       'unproven', msg='else branch touches orientation data', file=rel,
-                                      line=n.orelse[0].lineno, props=props))
+                                      line=n_orelse[0].lineno, props=props))
             # (c) navigation completeness
             if navigation:
                 cj = [' '.join(stmt_text(c, 300).split()) for c in conjuncts(n.test)]
